@@ -75,6 +75,10 @@ def run_shard(spec):
 
 
 def replay(case):
+    if case.get('kind') == 'zone-value-names-light':
+        acc = Acc()
+        check_zone_value_names_light(acc)
+        return [(f['sig'], f['what']) for f in acc.failures.values()]
     if case.get('kind') == 'fractional':
         acc = Acc()
         check_fractional(acc, case['text'], case['values'])
@@ -83,7 +87,8 @@ def replay(case):
 
 
 def shrink(failure):
-    if failure['case'].get('kind') == 'fractional':
+    if failure['case'].get('kind') in ('fractional',
+                                       'zone-value-names-light'):
         return failure
     return progbase.shrink(failure, ID, nontrivial, tolerance=0)
 
@@ -122,8 +127,31 @@ def check_fractional(acc, text, values):
             return
 
 
+# ---- a zone number computed by a routine that itself names a light -------------------
+def check_zone_value_names_light(acc):
+    from verif.harness import World
+    world = World([
+        {'label': 'Z', 'group': 'G', 'location': 'L', 'kind': 'mz',
+         'zones': 8},
+        {'label': 'A', 'group': 'G', 'location': 'L'}])
+    text = ('define q_z with q_n begin get "A" hue 10 return q_n end '
+            'set "Z" zone [q_z 3]')
+    result = world.run(text, budget=20000)
+    case = {'kind': 'zone-value-names-light'}
+    acc.case(key=text, nontrivial=True, labels=['zone-value-names-light'])
+    requests = [(e[1], e[2], e[3], e[4]) for e in result.trace
+                if e[0] == 'cmd']
+    if not result.compiled or result.aborted or requests != [
+            ('Z', 'set_zone_color', 3, 4)]:
+        acc.fail('zone-value-names-light',
+                 '{} -> requests {} ({} {}), expected zone 3 of Z and nothing '
+                 'else'.format(text, requests, result.errors.strip(),
+                               result.aborted), case)
+
+
 def run_fractional():
     acc = Acc()
+    check_zone_value_names_light(acc)
     for whole in range(0, 15):
         for fraction in (0, 0.25, 0.5, 0.75):
             value = whole + fraction
